@@ -307,6 +307,14 @@ impl<K, V> HashMap<K, V, DefaultHashBuilder> {
     }
 }
 
+#[cfg(feature = "verif-hooks")]
+impl<K, V, S> HashMap<K, V, S> {
+    /// Read-only view of the resize state, for external checkers.
+    pub fn verif_state(&self) -> crate::raw::VerifState {
+        self.table.verif_state()
+    }
+}
+
 impl<K, V, S> HashMap<K, V, S> {
     /// Creates an empty `HashMap` which will use the given hash builder to hash
     /// keys.
